@@ -12,6 +12,7 @@
 (*   Call      {fid, f, kind, wanted, args:[{n, v}]}                       *)
 (*   Yield     {fid, v}      Suspend {fid}     Resume {fid}   Rebind {..}  *)
 (*   Return    {fid, v}      Raise {fid}       Propagate {fid}  Throw{fid} *)
+(*   Drop      {fid}         a suspended generator is abandoned            *)
 (*   Log       {f, args:[{n, ty}], ret, ys}    ret/ys = absent-sentinel    *)
 (*   End       {resid}       resid = finished frames still held by tracer  *)
 (*   Stat      {n, traced, lo, hi}   seeded run with the real RNG (C18)    *)
@@ -95,6 +96,10 @@ Step ==
        [] e.ev = "Return" ->
             /\ pending' = Complete(e.fid, J2T(e.v), FALSE)
             /\ UNCHANGED <<frames, viol>>
+       [] e.ev = "Drop" ->
+            \* an abandoned generator: no verdict for it (it is simply no longer expected to be logged)
+            /\ frames' = [frames EXCEPT ![e.fid].wanted = FALSE]
+            /\ UNCHANGED <<pending, viol>>
        [] e.ev \in {"Raise", "Propagate", "Throw"} ->
             /\ pending' = Complete(e.fid, TAbsent, TRUE)
             /\ UNCHANGED <<frames, viol>>
